@@ -217,7 +217,7 @@ REGISTRY = {
     },
     "C12": {
         "rules": [
-            registries.rule_ag_compress_registry, exponent.rule_view_accrual, capguard.rule_cap_guard, capguard.rule_pair_predicate, capguard.rule_opts_delivered, envs.rule_private_boundary, envs.rule_env_scope, envs.rule_stored_env_private, envs.rule_gauge_double_count,
+            registries.rule_ag_compress_registry, exponent.rule_view_accrual, capguard.rule_cap_guard, capguard.rule_pair_predicate, capguard.rule_opts_delivered, envs.rule_private_boundary, envs.rule_env_scope, envs.rule_stored_env_private, envs.rule_gauge_double_count, order.rule_gauge_fuse_total,
             P(optflow.rule_option_delivery, opts=("max_bond", "cutoff"),
               modules=("quimb.tensor.tn2d", "quimb.tensor.tn3d", "quimb.tensor.tnag.compress", "quimb.tensor.tensor_core"),
               rule="cap-delivery[boundary]", floor=80),
@@ -237,7 +237,7 @@ REGISTRY = {
         "assumptions": COMMON_ASSUMPTIONS,
     },
     "C04": {
-        "rules": [order.rule_gauge_order_binding, iso.rule_iso_invalidate, iso.rule_flag_setter_total, iso.rule_iso_claim, iso.rule_gauge_record_agree, iso.rule_merge_collapses_holders, iso.rule_exp_compensate, iso.rule_strip_member, exponent.rule_view_accrual, simplify.rule_output_protected,
+        "rules": [order.rule_gauge_order_binding, iso.rule_iso_invalidate, iso.rule_flag_setter_total, iso.rule_iso_claim, iso.rule_gauge_record_agree, iso.rule_merge_collapses_holders, iso.rule_exp_compensate, iso.rule_strip_member, exponent.rule_view_accrual, simplify.rule_output_protected, order.rule_gauge_fuse_total,
                   functools.partial(inplace.rule_inplace_effect, family=iso.rewrite_family, rule="inplace-effect[rewrites]", floor=40, controls=0)],
         "explanation": (
             "static: decides (a) the isometry flag left_inds as a typestate — dropped by every data write, low-level "
